@@ -16,6 +16,7 @@ import SpiceEv.Proofs.StratBalancedMarketBattery
 import SpiceEv.Proofs.StratBalancedMarketLimitStep
 import SpiceEv.Proofs.StratBalancedMarketBatLimit
 import SpiceEv.Proofs.StratBalancedMarketBatLimitStep
+import SpiceEv.Proofs.StratBalancedMarketV2gStep
 import SpiceEv.Proofs.StratBalancedMarketToy
 set_option linter.unusedSectionVars false
 namespace SpiceEv
@@ -185,6 +186,68 @@ theorem C04_balanced_market_step_with_batteries_within_limit_partial (ops : Ops 
     ∀ g' ∈ w'.gcs, ∃ g ∈ w.gcs, g.id = g'.id ∧ -g.curMax ≤ g'.currentLoad ∧
       g'.currentLoad ≤ g.curMax ∧ g'.curMax = g.curMax :=
   step_limit_bat ops law R sl env w w' cmds heps hfut hmax hnov2g hmin hnd hbase hmode h
+
+/-- **Feed-in side of the limit with V2G-capable vehicles and stationary batteries (whole step).**
+After repair BM1 the V2G discharge limit `timesteps[0].power − 2·max_power` is enough: for
+`BalancedMarket.step` on any world with unique connector ids — any number of vehicles (V2G-capable or not),
+stations, stationary batteries, any prices, events (all in the future) and horizon — with a battery obeying
+`BatLaw` and the copy law `SimLaw`: if fixed load and generation alone respect the limit of every
+connector from below (`−cur_max_power ≤ load`, `0 ≤ cur_max_power`), then after the step
+`−limit ≤ load` at every connector and the limit is unchanged.
+Why it holds: through the vehicle loop the forecast of the current timestep never falls below the
+connector's real headroom (`max_power − load ≤ timesteps[0].power`): the power replayed by the forecast
+update for the current timestep is exactly the one real call that was booked — nothing is planned for the
+current timestep unless it is applied (BM1), after a real charge the V2G search cannot reach the current
+timestep (it sits before `sorted_idx`; the indices of `sorted_ts` are distinct), the back-tracking restores
+`power`; hence a discharge of at most `2·max_power − timesteps[0].power` cannot pass `−max_power`.  Surplus
+pass and battery charging only raise the load; the battery support discharge is bounded by
+`cur_max_power + load`.
+Not covered with V2G-capable vehicles (and exactly this): the *draw* side `load ≤ limit`.  It is proved
+without V2G (`C04_balanced_market_step_with_batteries_within_limit_partial`); with V2G the surplus pass and
+the battery block work with `get_current_load(exclude = discharging_stations)`, and bounding what they hand
+out needs the entries of the discharging stations to be `≤ 0` (fresh, unique keys), which is not proved. -/
+theorem C04_balanced_market_step_feed_in_limit_with_v2g (ops : Ops α B) (law : BatLaw ops.toBatOps)
+    (R : B → B → Prop) (sl : SimLaw ops R) (env : Env α) (w w' : SWorld α B) (cmds : List (String × α))
+    (hfut : ∀ e ∈ env.events, env.now < e.start) (hnd : (w.gcs.map (·.id)).Nodup)
+    (hbase : ∀ g ∈ w.gcs, 0 ≤ g.curMax ∧ -g.curMax ≤ g.currentLoad)
+    (h : BalancedMarket.step ops env w = .ok (w', cmds)) :
+    ∀ g' ∈ w'.gcs, ∃ g ∈ w.gcs, g.id = g'.id ∧ -g.curMax ≤ g'.currentLoad ∧ g'.curMax = g.curMax :=
+  step_lower ops law R sl env w w' cmds hfut hnd hbase h
+
+/-- the same for one call of `step_gc` (no assumption on connector ids) -/
+theorem C04_balanced_market_step_gc_feed_in_limit_with_v2g (ops : Ops α B) (law : BatLaw ops.toBatOps)
+    (R : B → B → Prop) (sl : SimLaw ops R) (env : Env α) (w w' : SWorld α B) (gcId : String)
+    (cmds : List (String × α)) (gc : GcS α) (hgc : w.gc? gcId = some gc)
+    (hM : 0 ≤ gc.curMax) (hlo0 : -gc.curMax ≤ gc.currentLoad)
+    (hfut : ∀ e ∈ env.events, env.now < e.start)
+    (h : stepGc ops env w gcId = .ok (w', cmds)) :
+    ∀ g' ∈ w'.gcs, g'.id = gcId → -gc.curMax ≤ g'.currentLoad ∧ g'.curMax = gc.curMax :=
+  (stepGc_lower ops law R sl env w w' gcId cmds gc hgc hM hlo0 hfut h).1
+
+/-- the V2G search alone: whenever the forecast of the current timestep is at least the connector's real
+headroom, the search (discharge at the dearest timesteps, compensating charges, back-tracking) leaves the
+connector at `≥ −max_power` -/
+theorem C04_balanced_market_v2g_search_feed_in_limit (ops : Ops α B) (law : BatLaw ops.toBatOps)
+    (env : Env α) (v : VehicleS α B) (ts : List (TS α)) (t0 : TS α) (h0 : ts[0]? = some t0)
+    (sorted : List (α × Nat)) (M : α) (hM : 0 ≤ M) (htm : t0.maxPower = M) (k : Nat) (st st' : VSt α B)
+    (hlo : -M ≤ st.gc.currentLoad) (hfore : M - st.gc.currentLoad ≤ t0.power)
+    (h : v2gLoop ops env v ts sorted k st = .ok st') :
+    -M ≤ st'.gc.currentLoad ∧ st'.gc.curMax = st.gc.curMax :=
+  v2gLoop_lower ops law env v ts t0 h0 sorted M hM htm k st st' hlo hfore h
+
+/-- Non-vacuity: a V2G vehicle at SoC 0.9 (discharge limit 0.5, up to 5 kW) behind a 3 kW connector, price
+0.30 now and 0.10 from the next step on: it discharges exactly 3 kW (load −3 = −limit); with 2 kW of local
+generation it discharges only 1 kW (load again −3). -/
+example :
+    (BalancedMarket.step toyOps (toyEnv (some (1/10)))
+      ⟨[⟨"GC", 3, some (.fixed (3/10)), []⟩], [toyCs], [toyVeh true (9/10)], []⟩).toOption.map
+      (fun r => (r.2, r.1.gcs.map (fun g => (g.currentLoad, decide (-g.curMax ≤ g.currentLoad))))) =
+      some ([("CS1", -3)], [(-3, true)]) := by decide +kernel
+example :
+    (BalancedMarket.step toyOps (toyEnv (some (1/10)))
+      ⟨[⟨"GC", 3, some (.fixed (3/10)), [("pv", -2)]⟩], [toyCs], [toyVeh true (9/10)], []⟩).toOption.map
+      (fun r => (r.2, r.1.gcs.map (fun g => (g.currentLoad, decide (-g.curMax ≤ g.currentLoad))))) =
+      some ([("CS1", -1)], [(-3, true)]) := by decide +kernel
 
 /-- the battery block alone, for one battery and any price situation: starting with nobody discharging
 and the connector within ±limit, it ends within ±limit -/
